@@ -29,6 +29,12 @@ def run(ctx):
                                 extra=["-trace", "off"])
     r1 = lib.validate(ctx, "H1ServerTrace", "H1ServerTrace.cfg", t1, timeout=1800)
     lib.handle_rejections(ctx, r1, lambda cl: rerun(ctx, cl), rerun_hist=lambda seq: h1common.rerun_h1srv_hist(ctx, seq))
+    # (a1') the body limit at its boundary, every framing and every pre-parsed content type (buffered mode)
+    lim, nl = lib.gen_cases(ctx, "H1LimitGen", "H1LimitGen.cfg", out_name="limit.ndjson", timeout=600)
+    t1b, n1b = h1common.run_h1srv(ctx, drv, lim, ctx.sub("traces_limit"), modes="buffered", idle="inloop", cuts="whole,bytewise,rand2x6", extra=["-trace", "off"])
+    r1b = lib.validate(ctx, "H1ServerTrace", "H1ServerTrace.cfg", t1b, timeout=1800)
+    lib.handle_rejections(ctx, r1b, lambda cl: rerun(ctx, cl), rerun_hist=lambda seq: h1common.rerun_h1srv_hist(ctx, seq))
+    n1 += n1b
     # (a2) mutated streams
     mut, nm = lib.gen_cases(ctx, "H1MutGen", "H1MutGen_quick.cfg" if ctx.quick else "H1MutGen_thorough.cfg", out_name="mut.ndjson", timeout=1800)
     o2 = ctx.sub("traces_loose")
